@@ -465,6 +465,28 @@ func (f *frame) localsAt(b *ssa.BasicBlock) func(string) (Val, bool) {
 				}
 			}
 		}
+		if name == "rangeindex" {
+			// after a range loop: the index at the last evaluation of the loop head (the head dominates
+			// this point, so that is the value the register holds here); the closest such loop
+			var best *loopInfo
+			for _, li := range f.loops {
+				if li.phiCur == nil || li.body[b.Index] || !li.header.Dominates(b) {
+					continue
+				}
+				if _, ok := phiNamed(li, name); !ok {
+					continue
+				}
+				if best == nil || best.header.Dominates(li.header) {
+					best = li
+				}
+			}
+			if best != nil {
+				phi, _ := phiNamed(best, name)
+				if v, ok := best.phiCur[phi]; ok {
+					return v, true
+				}
+			}
+		}
 		return f.lookupLocal(nil, nil, b)(name)
 	}
 }
